@@ -221,18 +221,36 @@ def end_to_end(ck, rng, i):
     check_child_on_wire.auth_offer = None
     if not (c02.established(a) and c02.established(b)):
         return
+    if i % 3 == 0:
+        # the IKE_SA loses its only CHILD_SA first (hard expire at A, DELETE exchange): the CREATE_CHILD_SA exchanges below start from an IKE_SA without children
+        est0 = [s for s in a.ctl.ike_sas if s.state.name == 'ESTABLISHED' and s.child_sas]
+        if est0:
+            sim.expire(a, bytes(est0[0].child_sas[0].inbound_spi), True, daddr=str(est0[0].my_addr), proto=50 if proto == 3 else 51)
+            sim.drain()
+            sh.feed(sim.wire)
+            if not est0[0].child_sas:
+                ck.count('e2e.create_child_sa_on_an_ike_sa_without_children')
     # one CREATE_CHILD_SA from each side (with DH transforms when configured)
     for ini, res, ckey_i, ckey_r in ((a, b, 'child_a', 'child_b'), (b, a, 'child_b', 'child_a')):
         est = [s for s in ini.ctl.ike_sas if s.state.name == 'ESTABLISHED']
         if not est:
             continue
         before = len(sh.exch)
+        seen_x = set(sh.exch)
         sim.acquire(ini, 0, **({'sport': 4000 + i % 1000} if ini is a else {'dport': 4000 + i % 1000}))
         sim.drain()
         sh.feed(sim.wire)
         my_c = {'proto': proto, 'transforms': child_list(kw[ckey_r], proto, True)}
         off_c = {'proto': proto, 'transforms': child_list(kw[ckey_i], proto, True)}
         want = negotiate.select(my_c, off_c)
+        # the offer on the wire is the entry's proposal as configured (DH transforms included), whatever the IKE_SA holds at that moment
+        for ek in [k_ for k_ in sh.exch if k_ not in seen_x]:
+            qsa = next((p_ for p_ in sh.exch[ek]['inner'] if p_['type'] == codec.SA and p_.get('proposals')), None)
+            if sh.exch[ek].get('exch') == 36 and qsa is not None and qsa['proposals'][0]['proto'] == proto:
+                got_offer = [(t['type'], t['id'], t['keylen']) for t in qsa['proposals'][0]['transforms']]
+                ck.count('e2e.child_offers_compared_with_the_configuration')
+                if sorted(got_offer, key=str) != sorted(off_c['transforms'], key=str):
+                    ck.violation('create-child-sa-offer-is-not-the-configured-proposal', {'offer': got_offer, 'configured': off_c['transforms']}, sim.case)
         check_child_on_wire(ck, sim, sh, ini, res, want, 'create_child', None, my_c, off_c)
     # IKE_SA rekeys started by either side, twice: the responder's choice is judged against the preference order AS WRITTEN in its configuration
     # (the live configuration objects are shared by all IKE_SAs of a connection and outlive every negotiation) and the offer seen on the wire
@@ -511,7 +529,10 @@ def ke_group_aliases(ck, rng, i):
     """The 16-bit DH group number of a KE payload is compared as a whole: a KE payload whose group number only shares its low octet (or low bits) with
     the chosen group is a KE payload in ANOTHER group: INVALID_KE_PAYLOAD naming the chosen group, no IKE_SA."""
     g = [19, 14, 20, 21][i % 4]
-    alias = [g + 256, g + 512, g | 0x8000, g + 256 * 255, g << 8][(i // 4) % 5]
+    alias = [g + 256, g + 512, g | 0x8000, g + 256 * 255, g << 8, 31, 32, 2, 5, 25, 26, 22][(i // 4) % 12]
+    # (31 = curve25519 with a 32-octet value, 32 = curve448 with 56, 2 / 5 = small MODP groups, 25 / 26 = 192- and 224-bit curves, 22 = MODP with subgroup:
+    # first guesses of other implementations, none of them implemented here, each with a public value of its own length)
+    guess_len = {31: 32, 32: 56, 2: 128, 5: 192, 25: 48, 26: 56, 22: 128}.get(alias)
     sim, a, b = S.make_pair(ck.seed * 19 + i, ike_b={'encr': ['aes256'], 'integ': ['sha256'], 'prf': ['sha256'], 'dh': [str(g)]})
     sim.case = {'family': 'ke-group-alias', 'chosen_group': g, 'ke_group_field': alias}
     p = party.RefParty(S.A4, S.B4, rng)
@@ -521,6 +542,11 @@ def ke_group_aliases(ck, rng, i):
     for pl in m['payloads']:
         if pl['type'] == codec.KE:
             pl['group'] = alias
+            if guess_len is not None:
+                pl['data'] = gen.rb(rng, guess_len)
+        if pl['type'] == codec.SA and guess_len is not None:
+            # the guessed group is offered too (first), as a peer that prefers it would
+            pl['proposals'][0]['transforms'].insert(3, {'type': 4, 'id': alias, 'keylen': None})
     died = []
     sim.monitors.append(lambda s_, ep, rec: died.append(rec) if rec.died else None)
     rec = sim.inject(b, S.A4, S.B4, codec.encode_clear(m))
@@ -541,7 +567,8 @@ def ke_group_aliases(ck, rng, i):
         if data != struct.pack('>H', g):
             ck.violation('invalid-ke-payload-does-not-name-the-chosen-group', {'data': data, 'want': g}, sim.case)
     else:
-        ck.count('ke_alias.refused_otherwise')
+        # an acceptable proposal exists (group g is offered): the statement asks for INVALID_KE_PAYLOAD naming it, so that the initiator can retry
+        ck.violation('ke-payload-in-another-group-not-answered-with-invalid-ke-payload', {'chosen': g, 'ke_group_field': alias, 'ke_octets': guess_len, 'answer': [x.get('ntype') for x in nts] if mm else None}, sim.case)
 
 
 KE_SWEEP_CONFS = [
@@ -628,8 +655,8 @@ def run(ck):
     for i in range(64 if not ck.thorough() else 4000):
         if ck.mine(i // 8):
             foreign_attributes(ck, ck.rng('fattr', i), i)
-    for i in range(20 if not ck.thorough() else 400):
-        if ck.mine(i // 3):
+    for i in range(48 if not ck.thorough() else 960):
+        if ck.mine(i // 6):
             ke_group_aliases(ck, ck.rng('kealias', i), i)
     for rep in range(1 if not ck.thorough() else 40):
         for vi in range(34):
@@ -653,7 +680,9 @@ def verdict(ck):
     ck.floor('offers whose transforms carry unknown attributes: IKE suites chosen', c['foreign_attrs.ike_chosen'], 15)
     ck.floor('offers whose transforms carry unknown attributes: refused', c['foreign_attrs.ike_refused'] + c['foreign_attrs.child_refused'], 8)
     ck.floor('offers whose transforms carry unknown attributes: kernel SAs compared', c['foreign_attrs.newsa_checked'], 20)
-    ck.floor('KE payloads whose group number aliases the chosen group, answered INVALID_KE_PAYLOAD', c['ke_alias.answered_invalid_ke_payload'], 12)
+    ck.floor('KE payloads whose group number aliases the chosen group, answered INVALID_KE_PAYLOAD', c['ke_alias.answered_invalid_ke_payload'], 30)
+    ck.floor('CREATE_CHILD_SA offers compared with the configured proposal', c['e2e.child_offers_compared_with_the_configuration'], 100)
+    ck.floor('CREATE_CHILD_SA exchanges started on an IKE_SA that had lost its only CHILD_SA', c['e2e.create_child_sa_on_an_ike_sa_without_children'], 15)
     ck.floor('IKE_SA rekey selections compared', c['e2e.ike_rekey_selection_compared'], 150)
     ck.floor('INVALID_KE_PAYLOAD replies seen', c['e2e.invalid_ke_seen'] + c['e2e.child_invalid_ke'], 20)
     ck.floor('NO_PROPOSAL_CHOSEN outcomes seen', c['e2e.no_proposal_chosen_seen'] + c['e2e.child_no_proposal_chosen'], 10)
